@@ -235,6 +235,23 @@ def run_impl(case, d):
         if not frame.equals(before) or list(frame.columns) != list(before.columns):
             problems.append(f"{mode}: the input frame was modified")
         outs[mode] = res
+        if tab is not None:
+            # a NameFilter constructed with ANOTHER table (the same symbols numbered the other way round) and called with the frame's own
+            # table: the table given to the call decides
+            from hta.common import trace_filter as _tf
+            from hta.common.trace_symbol_table import TraceSymbolTable as _TST
+            decoy = _TST()
+            decoy.add_symbols(list(reversed(sym)))
+            for f, want in zip(filters, res):
+                if f["k"] != "name" or isinstance(want, str):
+                    continue
+                try:
+                    got = [int(i) for i in _tf.NameFilter(f["v"], symbol_table=decoy)(frame, tab).index]
+                    if got != want:
+                        problems.append(f"{mode}: NameFilter({f['v']!r}) constructed with another table and called with the frame's table selects "
+                                        f"{got[:10]}, constructed without a table {want[:10]}")
+                except Exception as e:
+                    problems.append(f"{mode}: NameFilter({f['v']!r}, symbol_table=other)(frame, table) raised {type(e).__name__}: {str(e)[:100]}")
         # the same frame as pd.concat of the ranks gives it: every rank's labels start again at 0, so labels repeat.  A filter is a selection of
         # ROWS: positions, order, contents and labels of the selected rows must be the same as on the frame with unique labels
         if len(frame) and len(set(rank_col)) > 1:
